@@ -388,3 +388,66 @@ def ob_sized_lazy(n: int, start: int, size: int, orphan: int, overlap: int) -> b
 
 
 OBLIGATIONS.append(Ob('sized_lazy_collection', ob_sized_lazy, PRE, timeout=tier(280, 1200), data='as finite_start', selectors='collection with __len__ and a lazy __iter__ but no __getitem__'))
+
+
+# ---------------------------------------------------------------- wave 5: what the lazy source yields / claims about itself
+class CountingPlain:
+    """iterator of plain values (some of them None / 0 / '') that logs every pull; optional __length_hint__ that is exact, too low or
+    too high (PEP 424 allows an inexact hint)"""
+
+    def __init__(self, values, hint=None):
+        self.values, self.pulled = list(values), []
+        if hint is not None:
+            self._hint = hint
+
+    def __iter__(self):
+        return self
+
+    def __next__(self):
+        i = len(self.pulled)
+        if i >= len(self.values):
+            raise StopIteration
+        self.pulled.append(i)
+        return self.values[i]
+
+    def __length_hint__(self):
+        h = getattr(self, '_hint', None)
+        if h is None:
+            return NotImplemented
+        return max(0, len(self.values) - len(self.pulled) + h)
+
+
+T_PLAIN_UNB = cooked('<dtml-in it><dtml-call "rec(_[\'sequence-index\'], _[\'sequence-item\'])"></dtml-in>')
+T_PLAIN_B = cooked('<dtml-in it start=st size=sz><dtml-call "rec(_[\'sequence-index\'], _[\'sequence-item\'])"></dtml-in>')
+FALSY = [None, 0, 'x']
+
+
+def ob_lazy_values_and_hints(n: int, k1: int, k2: int, k3: int, k4: int, hint: int, start: int, size: int) -> bool:
+    """a lazy source may yield None / 0 / '' and may give an inexact length hint: unbatched rendering still shows every element once, in
+    order; a batch shows its window and stays within the pull bound"""
+    nn = 0 if n <= 0 else 1 if n == 1 else 2 if n == 2 else 3
+    ks = [0 if k <= 0 else 1 if k == 1 else 2 for k in (k1, k2, k3, k4)]
+    h = None if hint <= 0 else 0 if hint == 1 else -1 if hint == 2 else 2
+    st = 1 if start <= 1 else 2 if start == 2 else 3
+    sz = 1 if size <= 1 else 2
+    from crosshair.tracers import NoTracing
+    with NoTracing():
+        vals = [FALSY[k] for k in ks[:nn]]
+        it = CountingPlain(vals, h)
+        rows = []
+        T_PLAIN_UNB(it=it, rec=lambda i, v: rows.append((i, v)))
+        if rows != list(enumerate(vals)) or it.pulled != list(range(nn)):
+            return False
+        if nn == 0:
+            return True
+        it2 = CountingPlain(vals, h)
+        rows2 = []
+        T_PLAIN_B(it=it2, st=st, sz=sz, rec=lambda i, v: rows2.append((i, v)))
+        w = C11.ref_window(st, 0, sz, 0, nn)
+        return rows2 == [(i, vals[i]) for i in range(w[0] - 1, w[1])] and in_order(it2.pulled) and len(it2.pulled) <= w[1] + sz
+
+
+OBLIGATIONS.append(Ob('lazy_values_and_length_hints', ob_lazy_values_and_hints, ['0 <= n <= 3', '0 <= hint <= 3', '1 <= start <= 3', '1 <= size <= 2', 'k4 == 0'] + ['0 <= k%d <= 2' % i for i in (1, 2, 3)],
+                      timeout=tier(280, 900), path_timeout=60, data='-',
+                      selectors='iterator of up to 3 values each selected from None / 0 / "x", with no / exact / too low / too high __length_hint__; unbatched, and batched with start 1..3 size 1..2',
+                      stubs='render runs untraced once the selectors are fixed on the path'))
